@@ -78,6 +78,8 @@ def synth_str(c):
         return 'é' + 'z' * (n - 1)
     if c['cls'] == 'nul':
         return '\0' + 'z' * (n - 1)
+    if c['cls'] == 'esc':
+        return ('"\\\n\'' * n)[:n]
     if c['blen'] >= 0:
         return base64.b64encode(bytes((7 * i + 1) % 256 for i in range(c['blen']))).decode()
     return 'z' * n
@@ -176,9 +178,9 @@ def int_abs(n):
 
 
 def str_abs(s, literal=False):
-    cls = 'nul' if '\0' in s else 'ascii' if s.isascii() else 'utf8'
+    cls = 'nul' if '\0' in s else 'utf8' if not s.isascii() else 'esc' if any(ch in s for ch in '"\\\n') else 'ascii'
     try:
-        blen = len(base64.b64decode(s.encode('ascii'), validate=True)) if cls == 'ascii' else -1
+        blen = len(base64.b64decode(s.encode('ascii'), validate=True)) if cls in ('ascii', 'esc') else -1
     except (binascii.Error, ValueError):
         blen = -1
     return {'j': 'str', 'cls': cls, 'len': len(s), 'blen': blen, 'name': s if literal else ''}
@@ -280,6 +282,12 @@ def alpha(res, dt, ac, conc, pa=None, pconc=None):
     if isinstance(res, str):
         if isinstance(conc, str) and res == conc and ac is not None and ac['j'] == 'str':
             return ac
+        if isinstance(conc, bytes):        # exported form of bytes: the text must decode to exactly these bytes
+            try:
+                if base64.b64decode(res.encode('ascii'), validate=True) == conc:
+                    return str_abs(res)
+            except (binascii.Error, ValueError):
+                pass
         return ALTERED
     if isinstance(res, bytes):
         if isinstance(conc, bytes):
@@ -677,3 +685,207 @@ def rand_prev(rnd, dt, c):
     if dt['k'] == 'array' and c['j'] == 'list':
         n = len(c['xs']) + rnd.choice((-1, 0, 1))
     return _valid_internal(rnd, dt, n)
+
+
+# --------------------------------------------------------------- C02: round trip records
+
+def rand_valid(rnd, dt, obj):
+    """a concrete valid internal value of dt with rich content (any byte, any character class, non-tick floats)"""
+    k = dt['k']
+    if k == 'double':
+        lo = -FMAX if dt['min'] == -NOLIM else dt['min'] / U
+        hi = FMAX if dt['max'] == NOLIM else dt['max'] / U
+        pool = [lo, hi, min(max(0.0, lo), hi)]
+        if hi > lo:
+            pool += [min(hi, max(lo, x)) for x in (rnd.uniform(max(lo, -1e6), min(hi, 1e6)), lo + 0.013, hi - 0.013,
+                                                    1e308, -1e308, 5e-324, 0.1, 1 / 3, 123456.789, 1e22, 2.0 ** 53 + 2)]
+        return float(rnd.choice(pool))
+    if k == 'int':
+        return rnd.choice((dt['min'], dt['max'], rnd.randint(dt['min'], dt['max'])))
+    if k == 'scaled':
+        a, b = dt['min'] // dt['scale'], dt['max'] // dt['scale']
+        return rnd.choice((a, b, rnd.randint(a, b))) * dt['scale'] / U
+    if k == 'bool':
+        return rnd.random() < 0.5
+    if k == 'enum':
+        return obj._enum[rnd.choice(dt['mem'])['n']]
+    if k == 'string':
+        n = rnd.randint(dt['minc'], dt['minc'] + 30 if dt['maxc'] == NOLIM else dt['maxc'])
+        pool = 'abcXYZ019 _-+=/!' + '"\\\n\t\'{}[](),:' + ('éß日本語\u2028\U0001f600' if dt['utf8'] else '')
+        return ''.join(rnd.choice(pool) for _ in range(n))
+    if k == 'blob':
+        n = rnd.randint(dt['minb'], dt['maxb'])
+        return bytes(rnd.randrange(256) for _ in range(n))
+    if k == 'array':
+        return tuple(rand_valid(rnd, dt['el'], obj.members) for _ in range(rnd.randint(dt['minlen'], dt['maxlen'])))
+    if k == 'tuple':
+        return tuple(rand_valid(rnd, e, o) for e, o in zip(dt['els'], obj.members))
+    fd = frappy()
+    return fd.ImmutableDict({m['n']: rand_valid(rnd, m['t'], obj.members[m['n']]) for m in dt['mem']
+                             if m['n'] not in dt['opt'] or rnd.random() < 0.6})
+
+
+def json_abs(fn, dt, av, conc):
+    """strict JSON round trip of fn() projected against the internal value conc"""
+    try:
+        exported = fn()
+    except Exception as e:   # noqa
+        return {'j': 'raised', 'e': type(e).__name__}, None
+    try:
+        j = json.loads(json.dumps(exported, allow_nan=False))
+    except (ValueError, TypeError):
+        return {'j': 'notstrict'}, None
+    return alpha(j, dt, av, conc), j
+
+
+def rt_records(obj, reb, dt, av, conc, extra=None):
+    """the C02 records of one valid value (abstract av, concrete conc) of dt:
+    rt.export, and when the value could be exported rt.wire, rt.text, rt.client"""
+    from frappy.client import CacheItem
+    base = {'dt': dt, 'v': av}
+    if extra:
+        base.update(extra)
+    ja, j = json_abs(lambda: obj.export_value(conc), dt, av, conc)
+    recs = [dict(base, kind='rt.export', j=ja)]
+    if j is None:
+        return recs
+    v1, _ = outcome_of(lambda: obj.validate(obj.import_value(j)), dt, av, conc)
+    j2 = json.loads(json.dumps(j))
+    v2, cval = outcome_of(lambda: reb.validate(reb.import_value(j2)), dt, av, conc)
+    recs.append(dict(base, kind='rt.wire', v1=v1, v2=v2))
+    if not v2['ok']:
+        return recs          # the client never holds this value
+    # text form as offered to GUI / CLI users: on the client's datatype
+    ts, t2same, v3 = True, False, {'ok': False, 'e': 'none'}
+    t1 = None
+    try:
+        t1 = reb.to_string(cval)
+        ts = isinstance(t1, str)
+    except Exception:   # noqa
+        ts = False
+    if ts:
+        v3, raw3 = outcome_of(lambda: reb.from_string(t1), dt, av, conc)
+        if v3['ok']:
+            try:
+                t2same = reb.to_string(raw3) == t1
+            except Exception:   # noqa
+                t2same = False
+    recs.append(dict(base, kind='rt.text', ts=ts, v3=v3, t2same=t2same))
+    if not ts:
+        return recs
+    # the client's path: str(cache item) -> setParameterFromString (minus the network) -> server
+    cssame = False
+
+    def client_set():
+        text = str(CacheItem(cval, datatype=reb))
+        value = reb.from_string(text)                           # as SecopClient.setParameterFromString does
+        data = json.loads(json.dumps(value, allow_nan=False))   # ... and sends it as the data of a change request
+        return obj.validate(obj.import_value(data))
+    cs, rawc = outcome_of(client_set, dt, av, conc)
+    if cs['ok']:
+        try:
+            cssame = reb.to_string(reb.validate(reb.import_value(json.loads(json.dumps(obj.export_value(rawc)))))) == t1
+        except Exception:   # noqa
+            cssame = False
+    recs.append(dict(base, kind='rt.client', cs=cs, cssame=cssame))
+    return recs
+
+
+def rt_children(dt, av):
+    """element sub-cases (type, abstract value) of a container value"""
+    k = dt['k']
+    if k == 'array':
+        return [(dt['el'], x) for x in av['xs']]
+    if k == 'tuple':
+        return list(zip(dt['els'], av['xs']))
+    if k == 'struct':
+        return [(sub_type(dt, av, e['k']), e['v']) for e in av['kv']]
+    return []
+
+
+# ------------------------------------------------------------------- TLC as the judge
+
+SPEC_FIELDS = ('kind', 'dt', 'c', 'p', 'path', 'out', 'v', 'j', 'v1', 'v2', 'ts', 'v3', 't2same', 'cs', 'cssame',
+               'a', 'b', 'passes', 'd1', 'd2', 'same', 'probes', 'before', 'after', 'what')
+
+
+def _judge_chunk(recs):
+    from .core import validate_traces
+    traces = [[{k: r[k] for k in SPEC_FIELDS if k in r}] for r in recs]
+    verdicts, st, tr = validate_traces('Trace_Datatypes', traces, 'Trace_Datatypes.cfg', timeout=1100, chunk=100000)
+    return [verdicts[i] for i in range(len(recs))], st, tr
+
+
+def judge(chk, recs):
+    """TLC's verdict for every record: None (allowed) or the violated clause"""
+    from .core import pool_map
+    if not recs:
+        return []
+    n = max(1, min(8, len(recs) // 1500))
+    parts = [recs[i::n] for i in range(n)]
+    res = pool_map(_judge_chunk, parts, procs=n)
+    out = [None] * len(recs)
+    for k, (vs, st, tr) in enumerate(res):
+        chk.states += st
+        chk.transitions += tr
+        for i, v in enumerate(vs):
+            out[k + i * n] = None if v is None else v[1]
+    return out
+
+
+def rkey(r):
+    return key({k: r[k] for k in SPEC_FIELDS if k in r})
+
+
+def localise(chk, failing, kids_fn, depth=5):
+    """failing: records rejected at top level. kids_fn(record) -> executed records of its element
+    sub-cases. TLC judges them level by level; the innermost rejected record is the root cause.
+    returns list of (root-cause record, clause, an example top-level record)"""
+    from .core import MachineryError
+    clause, nodes, level, kids_of = {}, {}, {}, {}
+    for r in failing:
+        level.setdefault(rkey(r), r)
+    top = dict(level)
+    for _ in range(depth):
+        if not level:
+            break
+        recs = list(level.values())
+        for r, v in zip(recs, judge(chk, recs)):
+            clause[rkey(r)] = v
+            nodes[rkey(r)] = r
+        nxt = {}
+        for r in recs:
+            k = rkey(r)
+            kids_of[k] = []
+            if clause[k] is None:
+                continue
+            for kid in kids_fn(r):
+                kk = rkey(kid)
+                kids_of[k].append(kk)
+                if kk not in nodes and kk not in nxt:
+                    nxt[kk] = kid
+        level = nxt
+    roots = {}
+
+    def blame(k, topk):
+        bad = [x for x in kids_of.get(k, []) if clause.get(x) is not None]
+        if bad:
+            for x in bad:
+                blame(x, topk)
+        else:
+            roots.setdefault(k, topk)
+    for k in top:
+        if clause[k] is None:
+            raise MachineryError('enumeration and Trace_Datatypes disagree on ' + json.dumps(top[k])[:1500])
+        blame(k, k)
+    return [(nodes[k], clause[k], top[tk]) for k, tk in roots.items()]
+
+
+def has_internal(c):
+    if c['j'] in ('bytes', 'member', 'fmax'):
+        return True
+    if c['j'] == 'list':
+        return any(has_internal(x) for x in c['xs'])
+    if c['j'] == 'obj':
+        return any(has_internal(e['v']) for e in c['kv'])
+    return False
